@@ -282,6 +282,12 @@ def main():
         systems = []
         while len(systems) < k:
             s = rng.choice([0, 1, 2**32 - 1, rng.range(0, 2**32 - 1)])
+            if systems and rng.range(0, 2) > 0:
+                # distinct system bytes that collide under any partial key: same low/high half, same low byte, swapped halves
+                p0 = systems[0]
+                s = rng.choice([(p0 & 0xFFFF) | (rng.range(0, 0xFFFF) << 16), (p0 & 0xFFFF0000) | rng.range(0, 0xFFFF),
+                                (p0 & 0xFF) | (rng.range(0, 0xFFFFFF) << 8), ((p0 & 0xFFFF) << 16) | (p0 >> 16),
+                                p0 ^ (1 << rng.range(0, 31)), (p0 + 2**31) % 2**32])
             if s not in systems:
                 systems.append(s)
         msgs = []
